@@ -72,6 +72,8 @@ pub struct Profile {
     pub edges: bool,
     /// probability that an Input is a formula
     pub p_formula: f64,
+    /// formulas biased to overflow / non-finite results (C08)
+    pub overflow: bool,
     /// generator guards of open known findings are active
     pub guards: bool,
 }
@@ -456,6 +458,9 @@ fn string_lit(rng: &mut Rng) -> String {
 }
 
 fn number_lit(rng: &mut Rng, cx: &FCtx) -> String {
+    if cx.p.overflow && rng.chance(0.5) {
+        return cx.loc.num(*rng.pick(&["1E308", "-1E308", "1E-320", "1E200", "0", "-0", "1E-308", "9E307"]));
+    }
     cx.loc.num(*rng.pick(&["0", "1", "2", "3", "10", "0.5", "2.5", "100", "1E3"]))
 }
 
@@ -540,7 +545,8 @@ pub fn dynamic_formula(rng: &mut Rng, cx: &FCtx) -> String {
             rng.range(1, 3),
             rng.range(1, 3)
         ),
-        1 => format!("={}({})", cx.loc.f("SEQUENCE"), cell_ref(rng, cx)),
+        // size depends on another cell, bounded so that a typed 1E3 does not make a 1000-row spill
+        1 => format!("={}({}(4{sep}{}))", cx.loc.f("SEQUENCE"), cx.loc.f("MIN"), cell_ref(rng, cx)),
         2 => format!("={}", range_ref(rng, cx)),
         3 => format!("={}*{}", range_ref(rng, cx), number_lit(rng, cx)),
         _ => format!("={}({})", cx.loc.f("TRANSPOSE"), range_ref(rng, cx)),
